@@ -122,7 +122,7 @@ func C06(tier string) int {
 	// cascade delete with three referrers, the target deleted in the same transaction as an earlier change of
 	// the referring store: neither the target nor a cascaded referrer may leave a trace
 	// ... and the self-referential wirings (an entity referring to itself and to its peers), restrict and cascade
-	for _, wiring := range []fkWiring{fkIdxCascade, fkcCascadeNullable, fkSelfNone, fkSelfIdxNullable, fkSelfCascade} {
+	for _, wiring := range []fkWiring{fkIdxCascade, fkcCascadeNullable, fkSelfNone, fkSelfIdxNullable, fkSelfCascade, fkSelfIdxCascade} {
 		owners, del := []string{"#o1", "#o2"}, "deleteOwner("
 		if wiring.self() {
 			owners, del = nil, "deleteWidget("
